@@ -278,6 +278,63 @@ async def slow_stop_scenario(seconds):
         return f"exc:{type(e).__name__}"
 
 
+async def window_stop_scenario():
+    """force_stop() issued right after start() returned - the secondary thread is still between `run_until_complete(init_task)`
+    and `run_forever()`: the stop must still take effect (the loop stops and is closed; calls afterwards are dropped, not run).
+    The window is made deterministic by holding the second run_forever() of the new loop (nothing of bellows is patched)."""
+    import threading as _th
+    from unittest import mock
+
+    import bellows.thread as th
+
+    in_window, release = _th.Event(), _th.Event()
+    probe = asyncio.new_event_loop()
+    base = type(probe)
+    probe.close()
+
+    class Gated(base):
+        _rf = 0
+
+        def run_forever(self):
+            self._rf += 1
+            if self._rf == 2:
+                in_window.set()
+                release.wait(10)
+            return super().run_forever()
+
+    thread = th.EventLoopThread()
+    with mock.patch.object(asyncio, "new_event_loop", Gated):
+        done = await thread.start()
+    loop = thread.loop
+    ok = await asyncio.get_running_loop().run_in_executor(None, in_window.wait, 5)
+    if not ok or loop is None:
+        release.set()
+        return "setup-failed"
+    obj = Obj()
+    proxy = th.ThreadsafeProxy(obj, loop)
+    thread.force_stop()
+    release.set()
+    try:
+        await asyncio.wait_for(asyncio.shield(done), 3)
+        ended = True
+    except asyncio.TimeoutError:
+        ended = False
+    closed = loop.is_closed()
+    before = len(obj.log) if hasattr(obj, "log") else None
+    try:
+        r = proxy.plain(5)
+        late = "dropped" if r is None else f"returned:{r!r}"
+    except BaseException as e:  # noqa: BLE001
+        late = f"raised:{type(e).__name__}"
+    if not ended:
+        # let the thread go whatever happened, so that the process can end
+        try:
+            loop.call_soon_threadsafe(loop.stop)
+        except RuntimeError:
+            pass
+    return f"ended={ended} closed={closed} late-call={late}"
+
+
 async def rebind_scenario():
     """the wrapped object re-binds an attribute after it was used through the proxy once: every use goes by what the attribute
     is *now* (another coroutine, a plain method, something that is not callable)"""
@@ -590,6 +647,17 @@ def run(ctx):
         if obs != want:
             ctx.violation(f"attribute re-bound on the wrapped object after a first use through the proxy ({kind}): observed {obs}, expected {want}",
                           {"kind": "rebind"}, {"kind": "rebind"})
+    # the stop request in the start-up window
+    for _ in range(ctx.n(2, 5)):
+        obs = asyncio.run(window_stop_scenario())
+        ctx.cov["evaluations"] += 1
+        ctx.cov["distinct_nontrivial"] += 1
+        ctx.count("stop-in-startup-window")
+        if obs == "setup-failed":
+            continue
+        if obs != "ended=True closed=True late-call=dropped":
+            ctx.violation("force_stop() requested right after start() returned (the secondary thread had not entered run_forever() yet): expected the owner's loop to stop "
+                          f"and be closed and later calls to be dropped, observed {obs}", {"kind": "window-stop"}, {"kind": "window-stop"})
     # owner loop alive but not running at the moment of the calls
     for started_before in (False, True):
         for _ in range(ctx.n(2, 6)):
@@ -645,6 +713,13 @@ def replay(ctx, obj):
         o = asyncio.run(slow_stop_scenario(r["seconds"]))
         bad = o not in ("value:cleaned", "cancelled")
         print(f"replay stop with slow clean-up: {o}: {'FAILS' if bad else 'ok'}")
+        if bad:
+            print(f"VIOLATION property={ctx.pid} replay=replay")
+        return 1 if bad else 0
+    if r.get("kind") == "window-stop":
+        o = asyncio.run(window_stop_scenario())
+        bad = o not in ("ended=True closed=True late-call=dropped", "setup-failed")
+        print(f"replay stop in the start-up window: {o}: {'FAILS' if bad else 'ok'}")
         if bad:
             print(f"VIOLATION property={ctx.pid} replay=replay")
         return 1 if bad else 0
